@@ -5,19 +5,19 @@ PROP = {
     "coq_targets": ["theories/IL/C04Check"],
     "n": {"quick": 8000, "thorough": 120000},
     "theorems": ["c_bin_spec", "c_bin_spec_noshift", "c_bin_sort_error", "c_ext_spec", "new_big_spec", "c_bin_inr", "c_ext_inr", "no_panic",
-                 "eval_den", "build_sort_error", "replace_scalar_subst", "replace_scalar_subst2", "rspec_sound", "c_bin_spec_c"],
+                 "eval_den", "build_sort_error", "replace_scalar_subst", "replace_scalar_subst2", "rspec_sound", "c_bin_spec_c",
+                 "c_bin_i_fst", "c_ext_i_fst", "eval_i_fst", "alloc_bounded", "eval_alloc_bounded"],
     "rule": "first: a deterministic sweep of every operator x widths {1,8,32,64,65,128} x all pairs of boundary values {0,1,2^(w-1)-1,2^(w-1),2^w-1,w} (complete whenever n/2 covers it); then cases drawn from one xoshiro256** stream per (seed,index): 45% Constant operators at boundary-biased widths/values, "
             "10% extensions/truncations, 35% expression trees built through the public constructors then eval'd, 10% replace_scalar; "
             "non-trivial = boundary operand (sign bit set, zero divisor, shift) or tree of >= 3 nodes; distinct by canonical case text",
     "trusted_base": [KERNEL, HARNESS_TB, "num-bigint (BigUint/BigInt operators taken to be the mathematical ones on Z)"],
     "assumptions": ["num-bigint arithmetic is exact", "widths range over 1 <= w < 2^64 (usize)"],
-    "partial": ["'no unbounded allocation' is not a Coq theorem (the model has no allocation cost): it rests on the guards "
-                "`bits >= self.bits` / `.filter(|bits| *bits < self.bits)` in front of every `BigUint << n`, which the model transcribes (big_shl is only reached with n < width) "
-                "and the harness exercises with amounts >= 2^64 at widths > 64",
-                "rotl is specified (and proved) for amounts <= width only; the oracle is silent above",
+    "partial": ["rotl is specified (and proved) for amounts <= width only; the oracle is silent above",
                 "width 0 and widths >= 2^64 are outside the theorems (width 0: to_bigint/ashr/sext underflow `bits - 1`, tie only)"],
     "level_text": "Unbounded Coq theorems (all widths >= 1, all operand values) that the Gallina transcription of Constant/Expression/eval equals "
                   "two's-complement bit-vector arithmetic, plus an in-kernel differential tie of that transcription to the Rust code on generated cases "
                   "(model = observed, and observed = specification).",
-    "level_note": "Trusted: Coq kernel + vm_compute; num-bigint; the harness/pretty-printer; the model is hand-written and tied to the code differentially, not by translation.",
+    "level_note": "'No unbounded allocation' is a theorem about an instrumented second transcription (IL/ConstCost.v, proved to compute the same results as IL/Const.v): "
+                  "every big integer materialised is < 2^(2w+2) (2^(w+bits+2) for extensions), independent of operand values; num-bigint's own internal temporaries are not modelled. "
+                  "Trusted: Coq kernel + vm_compute; num-bigint; the harness/pretty-printer; the model is hand-written and tied to the code differentially, not by translation.",
 }
